@@ -13,6 +13,11 @@ CLAIMED = {
         ref="4/C20"),
 }
 
+CLAIMED["C12"] = dict(
+    text="Bounded symbolic model checking of MolecularOrbitals and Shell: all real occupation vectors and occs_aminusb for restricted/unrestricted/generalized orbitals with up to 2 (thorough 3) orbitals per spin, every assignment sequence of length <= 2 (3) over occs/occsa/occsb/occs_aminusb incl. wrong-length vectors; after each step z3 proves occsa+occsb=occs, nelec, spinpol=|na-nb|, read-back and other-spin-unchanged; views, generalized refusals, constructor rejections and the Shell function-count formula for l<=9.",
+    note="Exact reals; numpy replaced by symnp in iodata.orbitals/attrutils/basis; longer histories and more orbitals outside.",
+    ref="4/C12")
+
 NOT_YET = "check not built yet in this round (planned, see DESIGN.md section 4)"
 NA = {}
 
